@@ -90,16 +90,80 @@ def rule_c19(ob, clause, wit):
   return None
 
 
-RULES = {"C17": rule_c17, "C10": rule_c10, "C19": rule_c19}
+FINDINGS.update({
+ "C18-top-code-overflow": "without a bias adder the accumulator type has no head-room for the single most positive sum: N = 2^k products of two most-negative codes (or -1 times the most negative activation, or the largest power-of-two weight times it) add up to exactly +2^(int_bits), one step above the largest representable value (QDense/QConv*/QDepthwiseConv2D with use_bias=False, signed weights and a signed input type)",
+ "C18-relu11-ternary-step": "an input of type quantized_relu(1,1) is treated as a 0/1 gate; the AND-gate multiplier reports the ternary/binary record (int_bits = bits), so the accumulator type has step 2 and cannot hold odd sums (see C17-ternary-binary-frac)",
+ "C18-po2-maxle1-step": "power-of-two weights with max_value <= 1: get_exp ignores the re-used exponent sign bit, so the accumulator type is too coarse for the smallest weights (see C16/C17-po2-maxle1-exp)",
+ "C18-analyze-all-zero": "estimate.analyze_accumulator takes log2 of the largest bound without guarding zero: a layer whose weights and bias are all zero (or whose input range is (0, 0)) makes it raise OverflowError (int(-inf)) instead of reporting a size",
+ "C18-analyze-bias-scaled": "estimate.analyze_accumulator adds the bias to the positive / negative weight sums BEFORE multiplying by the input range, so the bias is scaled by x_max / x_min: for ranges inside (-1, 1) or one-sided ranges the reported size under-estimates outputs dominated by the bias (e.g. range (0, 0.5), weights 0, bias 3: reported 1, |output| = 3 > 2)",
+ "C18-analyze-depthwise-bias": "estimate.analyze_accumulator indexes the bias of a depthwise convolution with the depth-multiplier index (b[i], i < depth_multiplier) although the layer has input_channels * depth_multiplier output channels: the bias of every output channel beyond the first depth_multiplier ones is ignored",
+ "C18-po2-top": "power-of-two weights: po2_to_qbits / the shifter report int_bits = max exponent, one short for the value 2^max_exp itself (see C17-po2-to-qbits-intbits); sums reaching 2^(log2(N) + max_exp [+ input int_bits]) overflow when there is no bias adder",
+})
 
 
-def main(prop):
+def rule_c18_analyze(ob, clause, wit):
+  case = ob.split("/")[-2]
+  rp = wit["__replay__"]
+  shape, ub = rp["shape"], rp["use_bias"]
+  names = []
+  def rec(prefix, shp):
+    if not shp:
+      names.append(prefix)
+      return
+    for i in range(shp[0]):
+      rec("%s_%d" % (prefix, i), shp[1:])
+  rec("k", shape)
+  dw = rp["layer"] == "QDepthwiseConv2D"
+  if ub:
+    rec("b", [shape[-2] * shape[-1]] if dw else shape[-1:])
+  mult = shape[-1]
+  seen = [n for n in names if not (dw and n.startswith("b_") and int(n[2:]) >= mult)]
+  ignored = [n for n in names if n not in seen]
+  if clause == "no_raise":
+    return "C18-analyze-all-zero", "And(%s)" % ", ".join("%s == 0" % n for n in seen)
+  if clause == "bound_all_channels" and ub:
+    r = []
+    if ignored:
+      r.append(("C18-analyze-depthwise-bias", "Or(%s)" % ", ".join("%s != 0" % n for n in ignored)))
+    if rp["range"][1] < 1:
+      r.append(("C18-analyze-bias-scaled", "Or(%s)" % ", ".join("%s != 0" % n for n in names if n.startswith("b_"))))
+    return r or None
+  return None
+
+
+def rule_c18(ob, clause, wit):
+  if "analyze_accumulator" in ob:
+    return rule_c18_analyze(ob, clause, wit)
+  case = ob.split("/")[-2]
+  lt, rest = case.split("_", 1)
+  wtok, rest = rest.split("_x_")
+  xk, btok = rest.split("_bias-")
+  r = []
+  if clause == "preact_fits":
+    if wtok.startswith("po2"):
+      r.append(("C18-po2-top", "Or(sum >= pow2(LGN + w_emax + x_int), And(x_bits == 1, x_int == 1, sum >= pow2(LGN + w_emax)))"))
+    elif wtok == "qbits":
+      r.append(("C18-top-code-overflow", "sum >= pow2(LGN + w_int + x_int)"))
+    else:
+      r.append(("C18-top-code-overflow", "sum >= pow2(LGN + x_int)"))
+  if clause == "preact_res":
+    if "mvle1" in wtok:
+      r.append(("C18-po2-maxle1-step", "true"))
+    elif xk == "qrelu":
+      r.append(("C18-relu11-ternary-step", "And(x_bits == 1, x_int == 1)"))
+  return r or None
+
+
+RULES = {"C18": rule_c18, "C17": rule_c17, "C10": rule_c10, "C19": rule_c19}
+
+
+def main(prop, tier="quick"):
   mod = importlib.import_module("contracts." + prop.lower())
-  cases = mod.cases("quick")
+  cases = mod.cases(tier)
   runner._CASES = cases
   known, _, _ = runner.load_known("__none__")
   runner._KNOWN = {}
-  runner._TIER = "quick"
+  runner._TIER = tier
   ctx = multiprocessing.get_context("fork")
   with ctx.Pool(16) as pool:
     results = pool.map(runner._work, range(len(cases)), chunksize=1)
@@ -141,4 +205,4 @@ def main(prop):
 
 
 if __name__ == "__main__":
-  main(sys.argv[1])
+  main(*sys.argv[1:3])
